@@ -270,6 +270,10 @@ def slice_range(e):
         if s.k == "call" and s.a[0].name in ("split_at", "split_at_mut") and len(s.a[1]) == 2 and s.a[0].krate in ("core", "alloc", "std"):
             base = slice_range(s.a[1][0])
             k = strip(s.a[1][1])
+            kv = fold_const(k)
+            if kv is not None:
+                from kernel import E
+                k = E("const", kv)
             if base is None or not (k.k == "const" and isinstance(k.a[0], int)):
                 return None
             blo, bhi = base
